@@ -28,6 +28,7 @@ except ImportError:  # pragma: no cover
 
 
 FORCE_THREADS = False
+ANY_SOURCE = -1
 
 
 class SimAbort(BaseException):
@@ -84,8 +85,9 @@ class SimComm:
     def send(self, obj, dest, tag=0):
         self._sim._post(self._rank, _Req("send", peer=int(dest), payload=("obj", _clone(obj))))
 
-    def recv(self, buf=None, source=0, tag=0):
-        r = self._sim._post(self._rank, _Req("recv", peer=int(source)))
+    def recv(self, buf=None, source=None, tag=0):
+        # mpi4py's default is MPI.ANY_SOURCE: the receive matches a message from ANY rank (a scheduling choice)
+        r = self._sim._post(self._rank, _Req("recv", peer=ANY_SOURCE if source is None or source < 0 else int(source)))
         typ, val = r
         if typ != "obj":
             raise ProtocolError("recv matched a buffer Send")
@@ -95,8 +97,8 @@ class SimComm:
         arr = np.array(buf, copy=True)
         self._sim._post(self._rank, _Req("send", peer=int(dest), payload=("buf", arr)))
 
-    def Recv(self, buf, source=0, tag=0):
-        typ, val = self._sim._post(self._rank, _Req("recv", peer=int(source)))
+    def Recv(self, buf, source=None, tag=0):
+        typ, val = self._sim._post(self._rank, _Req("recv", peer=ANY_SOURCE if source is None or source < 0 else int(source)))
         if typ != "buf":
             raise ProtocolError("Recv matched an object send")
         if val.shape != buf.shape or val.dtype != buf.dtype:
@@ -231,13 +233,17 @@ class Execution:
             if self.semantics == "rendezvous":
                 if q.kind == "send":
                     d = q.peer
-                    if (not self.finished[d]) and p[d] is not None and p[d].kind == "recv" and p[d].peer == r:
+                    if (not self.finished[d]) and p[d] is not None and p[d].kind == "recv" and p[d].peer in (r, ANY_SOURCE):
                         en.append(("rv", r, d))
             else:
                 if q.kind == "send":
                     en.append(("snd", r, q.peer))
                 elif q.kind == "recv":
-                    if self.chan.get((q.peer, r)):
+                    if q.peer == ANY_SOURCE:
+                        for s_ in range(self.k):
+                            if self.chan.get((s_, r)):
+                                en.append(("rcv", s_, r))
+                    elif self.chan.get((q.peer, r)):
                         en.append(("rcv", q.peer, r))
         return en
 
